@@ -24,16 +24,16 @@ type Block struct {
 	// Bad: right before this block every map forest is handed a block it must REFUSE: Modify(no adds,
 	// hashes of these live slots followed by one hash that is not a leaf of the forest). The refusal must
 	// leave everything as it was (the leaves are spent for real by later blocks).
-	Bad   []int  `json:"bad,omitempty"`
-	Prune []int  `json:"prune,omitempty"` // slots a partial map forest is asked to Prune right before this block (remembered, live)
+	Bad   []int `json:"bad,omitempty"`
+	Prune []int `json:"prune,omitempty"` // slots a partial map forest is asked to Prune right before this block (remembered, live)
 	// Learn: live slots every forest is asked to remember right before this block (after the prunes), the way
 	// LearnHow says: "verify" - Verify(remember=true); "ingest" - MapPollard.Ingest (partial forests; the
 	// others Verify); "vpp" - GetMissingPositions + VerifyPartialProof(remember=true) (partial forests).
 	Learn    []int  `json:"learn,omitempty"`
 	LearnHow string `json:"learnhow,omitempty"`
-	Salt  int    `json:"salt,omitempty"`  // branch id: added leaves hash as LeafHash(Salt*1e6+slot), so that leaves re-added on another branch after an undo differ
-	DM    string `json:"dm,omitempty"`    // deletion mode that produced Del (coverage label)
-	AM    string `json:"am,omitempty"`    // addition mode that produced Add (coverage label)
+	Salt     int    `json:"salt,omitempty"` // branch id: added leaves hash as LeafHash(Salt*1e6+slot), so that leaves re-added on another branch after an undo differ
+	DM       string `json:"dm,omitempty"`   // deletion mode that produced Del (coverage label)
+	AM       string `json:"am,omitempty"`   // addition mode that produced Add (coverage label)
 }
 
 type limits struct {
